@@ -265,11 +265,28 @@ def unpack_tool(tools, path, obs):
         shutil.rmtree(out_dir, ignore_errors=True)
 
 
+ORDERS_SEEN = set()
+
+
 def check_crc_folder(tools, wd, idx, good_files, bad_files, r):
     """folder mode: exit 0 exactly when every .e57 file in the folder (recursively) is intact.
     read_dir order is arbitrary, so several name permutations are tried."""
     problems = []
-    for perm in range(3):
+
+    def listing(path):
+        # the order in which a recursive read_dir walk meets the files (the same readdir order the tool gets)
+        out = []
+        for e in os.scandir(path):
+            if e.is_file():
+                out.append(e.path)
+            elif e.is_dir():
+                out += listing(e.path)
+        return out
+
+    seen = set()
+    for perm in range(10):
+        if perm >= 3 and (not bad_files or not good_files or {"damaged-first", "damaged-last"} <= seen):
+            break
         d = os.path.join(wd, "folder%04d_%d" % (idx, perm))
         os.makedirs(os.path.join(d, "sub"), exist_ok=True)
         members = [(f, True) for f in good_files] + [(f, False) for f in bad_files]
@@ -282,8 +299,20 @@ def check_crc_folder(tools, wd, idx, good_files, bad_files, r):
             dst = os.path.join(d, "sub" if k % 3 == 2 else "", name)
             shutil.copy(f, dst)
             all_ok = all_ok and ok
+        order = listing(d)
+        bad_names = set()
+        for k, (f, ok) in enumerate(members):
+            if not ok:
+                ext = ["e57", "E57", "e57", "E57"][(k + perm) % 4] if (k + perm) % 2 else "e57"
+                bad_names.add("%s%02d.%s" % ("abcdefgh"[(k * 3 + perm) % 8], (k * 7 + perm * 5) % 100, ext))
+        if order and bad_names:
+            if os.path.basename(order[0]) in bad_names:
+                seen.add("damaged-first")
+            if os.path.basename(order[-1]) in bad_names:
+                seen.add("damaged-last")
         p = run([os.path.join(tools, "e57-check-crc"), d])
         if (p.returncode == 0) != all_ok:
             problems.append(("check-crc/folder-exit-status", "folder with %d intact and %d damaged files: exit status %d" % (len(good_files), len(bad_files), p.returncode)))
         shutil.rmtree(d, ignore_errors=True)
+    ORDERS_SEEN.update(seen)
     return problems
